@@ -10,7 +10,11 @@ PROP = "C14"
 
 
 def run(tier):
-    return e2prop.run(PROP, tier, **KW)
+    kw = dict(KW)
+    if tier == "quick":
+        # the twin oracle performs six extra runs per RUN event: quick tier requests no output / the last node / all nodes
+        kw["opts"] = dict(kw["opts"], outs="few")
+    return e2prop.run(PROP, tier, **kw)
 
 
 def replay(rep):
